@@ -113,6 +113,14 @@ def rule_b(ctx):
         es = bool_edges(ctx, rss, lambda d: D.has_call(d, 'Send::try_stop'))
         ok = bool(es) and all(edge_dominates(rss, br.bb, tgt, c.bb) for br, truth, tgt in es if truth)
         ctx.check(ok, 'b', 'stopped_only_on_first_stop', rss, c.where(), 'try_stop()==true edge', 'Stopped is emitted even when the stream was already stopped')
+    # ... and ALWAYS then: try_stop has already recorded the reason (operations report Stopped from now on), so the event must follow
+    scons = [x.bb for x in constructions(F, 'StreamEvent', 'Stopped', crate='quinn_proto') if F.root_of(x.body).id == rss.id]
+    for br, truth, tgt in bool_edges(ctx, rss, lambda d: d[0] == 'call' and d[1] == 'Send::try_stop'):
+        if not truth:
+            continue
+        p = path_avoiding(rss, [tgt], rss.return_blocks(), scons)
+        ctx.check(p is None and bool(scons), 'b', 'stopped_always_on_first_stop', rss, br.where(), 'every path from try_stop()==true reaches push_back(Stopped)',
+                  'a first STOP_SENDING records the stop reason but a path skips the Stopped event: ' + (fmt_path(rss, p) if p else ''))
     ts = ctx.pfn('Send::try_stop')
     brs = [b for b in branches(F, ts) if D.has_field(b.desc, 'stop_reason')]
     ctx.check(bool(brs), 'b', 'try_stop_tests_previous_reason', ts, ts.where(), 'stop_reason.is_none()', 'try_stop no longer distinguishes the first stop')
@@ -183,6 +191,19 @@ def rule_d(ctx):
         for c in ck:
             a0 = arg_desc(F, c, 0)
             ctx.check(D.has_field(a0, 'send') or D.has_field(a0, 'recv'), 'd', 'other_half_lookup_on_stream_maps', sf, c.where(), D.render(a0), 'contains_key is not applied to the send/recv maps')
+        hb = [b for b in branches(F, sf) if b.desc[0] == 'discr' and D.has_param(b.desc, name='half') and len(b.edges) >= 2]
+        okh = False
+        for b in hb:
+            seen = {}
+            for variant, fld in ((0, 'recv'), (1, 'send')):      # StreamHalf::Send = 0 looks at `recv`; StreamHalf::Recv = 1 looks at `send`
+                t = b.target(variant)
+                other = b.target(1 - variant)
+                mine = [c for c in ck if c.bb in sf.reachable_from(t, avoid=[other]) and c.bb not in sf.reachable_from(other, avoid=[t])]
+                seen[variant] = bool(mine) and all(D.has_field(arg_desc(F, c, 0), fld) for c in mine)
+            if seen.get(0) and seen.get(1):
+                okh = True
+        ctx.check(okh, 'd', 'slot_release_tests_the_other_half', sf, w.where(), 'Send half freed -> !recv.contains_key(id); Recv half freed -> !send.contains_key(id)',
+                  'stream_freed tests the wrong map for one half: a remote bidirectional stream stops counting while its other half is still live')
         es = must_follow(F, sf, w.bb, ['StreamsState::ensure_remote_streams'], depth=0)
         ctx.check(es is None, 'd', 'slot_release_reissues_credit', sf, w.where(), 'followed by ensure_remote_streams', 'released slot is not followed by ensure_remote_streams')
     ss = [(w, v) for w, v in store_values(ctx, SS, 'send_streams', in_fn=sf)]
